@@ -143,6 +143,7 @@ def sub_at(sdoc, path):
 def work(chunk):
     t = Tally()
     for clsname, basekinds, depth, pairs in chunk:
+        thorough = depth >= 1
         cls = U.cls_by_name(clsname)
         deep = depth
         if clsname in ("MAILRQ", "MAILRS", "MFINFO", "STOCKINFO", "SECLIST", "MAIL") or any(c.kind == "sub" and c.target.__name__ in ("MAIL", "MFINFO", "STOCKINFO") for c in S.children(cls)):
@@ -168,6 +169,8 @@ def work(chunk):
                 target = sub_at(sdoc, path)
                 npos = len(target[1]) + 1
                 for (label, item) in items_for(target):
+                    if bk == "MAXS" and not thorough and label in ("aggregate-known-elsewhere", "digit-initial-element", "empty-element", "aggregate-with-known-content"):
+                        continue  # quick tier: these four item kinds only on the MIN and MAXL documents
                     if item[0] in declared_tags(target[0]):
                         raise HarnessError(f"unknown-item name {item[0]} is declared by {target[0]}")
                     for pos in range(npos):
